@@ -2,6 +2,7 @@
 
 use crate::engine::{fp, replay_entry, CaseInfo, ReplayEntry, Run, Verdict};
 use crate::gen::{arb_value, GenCfg};
+use crate::terms::denote;
 use crate::netbed::{advance, connect_node, library_panics_since, panic_mark, run_case, started_node, BedErr};
 use crate::nodebed::{new_log, pass_through_frame, pid_value, reg_send_frame, remote_pid, send_frame, wait_until, Event, Log, Recorder};
 use edp_node::Node;
@@ -43,6 +44,10 @@ pub enum Item {
     LocalSend { to: u8, payload: Value },
     /// more messages than a mailbox holds, sent to one process while it is busy
     Burst { to: u8, n: u16 },
+    /// the node issues a remote call; the peer reads the request and answers it in the middle of other inbound traffic:
+    /// bit 0 an undecodable frame first, bit 1 a tick first, bit 2 a reply to a pid that never had a call first,
+    /// bits 3-4 == 3: no answer at all (the call must time out and nothing else may be disturbed)
+    Call(u8),
     // --- after any of these the connection must be gone ---
     OverLongLength(u32),
     CloseMidFrame(u8),
@@ -271,6 +276,59 @@ fn run_net(c: &Case) -> Result<Result<Outcome, String>, BedErr> {
                     }
                     gate.notify_one();
                 }
+                Item::Call(kind) => {
+                    let silent = (*kind >> 3) & 3 == 3;
+                    let want = crate::props::c17::echo(0, idx);
+                    let call = node.rpc_call_raw_with_timeout(PEER, "m", "f", vec![crate::props::c17::arg(0, idx)], Duration::from_secs(4));
+                    let mut peer_problem: Option<(String, String)> = None;
+                    let peer_side = async {
+                        let Some(f) = p.read_frame(4).await else {
+                            peer_problem = Some(("request-not-sent".into(), format!("item {idx}: the call's request never reached the peer")));
+                            return;
+                        };
+                        let reply_to = match crate::props::c17::parse_request(&f) {
+                            Ok((pid, 0, i)) if i == idx => pid,
+                            other => {
+                                peer_problem = Some(("request-malformed".into(), format!("item {idx}: {:?}", other.map(|x| x.0.render()))));
+                                return;
+                            }
+                        };
+                        let mut out = vec![];
+                        if kind & 1 != 0 {
+                            out.extend_from_slice(&frame4(&[112u8, 131, 104, 2, 255]));
+                        }
+                        if kind & 2 != 0 {
+                            out.extend_from_slice(&[0, 0, 0, 0]);
+                        }
+                        if kind & 4 != 0 {
+                            let bogus = Value::Pid { node: "rust@127.0.0.1".into(), id: 888_000 + idx as u32, serial: 0, creation: 0x0102_0304 };
+                            out.extend_from_slice(&send_frame(&bogus, &Value::atom("stray")));
+                        }
+                        if !silent {
+                            out.extend_from_slice(&send_frame(&reply_to, &want));
+                        }
+                        if !out.is_empty() {
+                            let _ = p.write(&out).await;
+                        }
+                        p.settle().await;
+                        if silent {
+                            for _ in 0..6 {
+                                advance(Duration::from_secs(1)).await;
+                            }
+                        }
+                    };
+                    let (r, ()) = tokio::join!(call, peer_side);
+                    if let Some(pp) = peer_problem {
+                        problems.push(pp);
+                    }
+                    had_bad |= kind & 1 != 0;
+                    match (r, silent) {
+                        (Ok(t), false) if denote(&t).same(&want) => {}
+                        (Ok(t), _) => problems.push(("reply-not-delivered-to-its-call".into(), format!("item {idx} {:?}: the call returned {}", it, denote(&t).render()))),
+                        (Err(e), false) => problems.push(("reply-not-delivered-to-its-call".into(), format!("item {idx} {:?}: the peer answered the outstanding call, which returned {e}", it))),
+                        (Err(_), true) => {}
+                    }
+                }
                 Item::OverLongLength(len) => {
                     is_fatal = true;
                     let l = (64 * 1024 * 1024 + 1 + (*len % 1_000_000)) as u32;
@@ -383,7 +441,9 @@ pub fn oracle(c: &Case) -> Verdict {
     let nontrivial = out.had_bad || out.had_quiet || out.fatal;
     let info = if nontrivial { CaseInfo::nt(fp(&format!("{:?}", c))) } else { CaseInfo::trivial() };
     let burst = c.items.iter().any(|i| matches!(i, Item::Burst { .. }));
-    Verdict::Pass(info.class_if(burst, "burst-beyond-mailbox-capacity").class_if(out.had_bad, "undecodable-frame").class_if(out.had_quiet, "quiet-period-with-ticks").class_if(out.fatal, "stream-closed-or-framing-broken"))
+    Verdict::Pass(info.class_if(burst, "burst-beyond-mailbox-capacity").class_if(out.had_bad, "undecodable-frame").class_if(out.had_quiet, "quiet-period-with-ticks").class_if(out.fatal, "stream-closed-or-framing-broken")
+            .class_if(c.items.iter().any(|i| matches!(i, Item::Call(k) if (*k >> 3) & 3 != 3)), "outstanding-call-answered")
+            .class_if(c.items.iter().any(|i| matches!(i, Item::BadRun(_))), "run-of-bad-frames"))
 }
 
 fn strategy() -> impl Strategy<Value = Case> {
@@ -403,6 +463,7 @@ fn strategy() -> impl Strategy<Value = Case> {
         2 => any::<u8>().prop_map(Item::Quiet),
         1 => (0u8..3, term()).prop_map(|(to, payload)| Item::LocalSend { to, payload }),
         1 => (0u8..3, any::<u16>()).prop_map(|(to, n)| Item::Burst { to, n }),
+        2 => any::<u8>().prop_map(Item::Call),
     ];
     let fatal = prop_oneof![any::<u32>().prop_map(Item::OverLongLength), any::<u8>().prop_map(Item::CloseMidFrame), Just(Item::Close)];
     (prop::collection::vec(item, 1..14), prop::option::weighted(0.4, fatal), prop_oneof![2 => Just(vec![]), 3 => prop::collection::vec(prop_oneof![Just(0u8), any::<u8>()], 1..6)], prop::bool::weighted(0.3)).prop_map(|(mut items, f, cuts, eager)| {
@@ -415,7 +476,7 @@ fn strategy() -> impl Strategy<Value = Case> {
 
 pub fn run(run: &mut Run) {
     run.rule = "a started Node with three registered recorder processes, one dead process and a never-existing pid, connected to a scripted peer that sends generated sequences of inbound frames: SEND to live/dead/unknown \
-        pids, REG_SEND to registered/unknown names, EXIT, MONITOR_P_EXIT, ignored control kinds, ticks, three kinds of undecodable frame (bad ETF behind 112, wrong first byte, non-tuple control term) singly and in runs of 17..96, quiet periods of \
+        pids, REG_SEND to registered/unknown names, EXIT, MONITOR_P_EXIT, ignored control kinds, ticks, three kinds of undecodable frame (bad ETF behind 112, wrong first byte, non-tuple control term) singly and in runs of 17..96, remote calls issued by the node and answered by the peer behind a bad frame, a tick or a stray reply (or not at all), quiet periods of \
         5..120 virtual seconds with the peer ticking every 15 s, local sends in between, optionally ended by an over-long length prefix, a close inside a frame or a plain close. After every item a marker message \
         through the same connection must arrive and the peer must still be in connections(); after a fatal item the peer must disappear from connections(). Recorder logs must equal the model exactly. \
         Non-trivial = script has a bad frame, a quiet period or a fatal ending"
